@@ -8,7 +8,7 @@ from .natives import NATIVES, find_function, val_order_axioms
 from . import solve
 
 
-def verify_case(repo, qualname, case_index, timeout_ms=10000, want_models=True):
+def verify_case(repo, qualname, case_index, timeout_ms=10000, want_models=True, only_names=None):
     """Returns dict(status, results=[...], stats, notes).  status: ok | undecided | error."""
     contract = REGISTRY[qualname]
     case = contract.cases[case_index]
@@ -66,6 +66,8 @@ def verify_case(repo, qualname, case_index, timeout_ms=10000, want_models=True):
         only = _os.environ.get('PYVC_ONLY')
         for o in obls:
             if only and only not in o.name:
+                continue
+            if only_names is not None and o.name not in only_names:
                 continue
             ax = list(axioms)
             if solve.uses_decl(list(o.assumptions) + [o.goal], 'val_lt'):
